@@ -130,6 +130,44 @@ Proof.
   destruct (f x); [reflexivity | exact IH].
 Qed.
 
+Lemma nth_error_skipn_add : forall {T} (l : list T) lo j, nth_error (skipn lo l) j = nth_error l (lo + j).
+Proof.
+  intros T l lo. revert l. induction lo as [|lo IH]; intros l j; [reflexivity|].
+  destruct l as [|a l]; cbn [skipn Nat.add nth_error]; [now destruct j | apply IH].
+Qed.
+
+Lemma nth_error_firstn_lt : forall {T} (l : list T) len j, j < len -> nth_error (firstn len l) j = nth_error l j.
+Proof.
+  intros T l len. revert l. induction len as [|len IH]; intros l j H; [lia|].
+  destruct l as [|a l]; [now destruct j|]. destruct j as [|j]; cbn [firstn nth_error]; [reflexivity|].
+  apply IH. lia.
+Qed.
+
+Lemma nth_error_seg : forall {T} (l : list T) lo len j, j < len ->
+  nth_error (firstn len (skipn lo l)) j = nth_error l (lo + j).
+Proof. intros T l lo len j H. rewrite nth_error_firstn_lt by assumption. apply nth_error_skipn_add. Qed.
+
+Lemma find_combine : forall {T} (cs : list nat) (vs : list T) y j a,
+  NoDup cs -> nth_error cs j = Some y -> nth_error vs j = Some a ->
+  option_map snd (find (fun e => Nat.eqb (fst e) y) (combine cs vs)) = Some a.
+Proof.
+  intros T cs. induction cs as [|c cs IH]; intros vs y j a Hnd Hc Hv; [now destruct j|].
+  destruct vs as [|v vs]; [now destruct j|]. inversion Hnd as [|? ? Hnin Hnd']; subst.
+  cbn [combine find fst]. destruct j as [|j]; cbn [nth_error] in Hc, Hv.
+  - inversion Hc; inversion Hv; subst. now rewrite Nat.eqb_refl.
+  - destruct (Nat.eqb_spec c y) as [->|NE].
+    + exfalso. apply Hnin. eapply nth_error_In. exact Hc.
+    + now apply (IH vs y j a).
+Qed.
+
+Lemma find_combine_none : forall {T} (cs : list nat) (vs : list T) y,
+  ~ In y cs -> option_map snd (find (fun e => Nat.eqb (fst e) y) (combine cs vs)) = None.
+Proof.
+  intros T cs. induction cs as [|c cs IH]; intros vs y H; [reflexivity|].
+  destruct vs as [|v vs]; [reflexivity|]. cbn [combine find fst].
+  destruct (Nat.eqb_spec c y) as [->|NE]; [exfalso; apply H; now left|]. apply IH. intros Hin. apply H. now right.
+Qed.
+
 Section Sym2.
 Variable V : Type.
 Variable vadd : V -> V -> V.
@@ -1086,6 +1124,132 @@ Proof.
         + destruct (Nat.eqb_spec r c) as [E|_]; [congruence|]. cbn [andb]. destruct (memb n (row_cols p c)); reflexivity. }
   rewrite <- nsum_add. apply nsum_ext. intros y _. unfold targetb.
   destruct (memb y (row_cols p r)), (memb r (row_cols p y)); reflexivity.
+Qed.
+
+(* lookups in the INPUT matrix *)
+Lemma lookup_p_in : forall r i a, r < N -> In i (range (R r) (R (r + 1))) ->
+  nth_error (val_P p) i = Some a -> lookup p r (cA i) = Some a.
+Proof.
+  intros r i a Hr Hi Ha. unfold lookup, row_entries, row_cols, row_vals, seg.
+  apply range_In in Hi. pose proof (row_idx_lt r i Hr (proj2 (range_In _ _ _) Hi)) as Hil.
+  apply (find_combine _ _ (cA i) (i - R r) a).
+  - apply (WF_nodup r Hr).
+  - rewrite nth_error_seg by lia. replace (R r + (i - R r)) with i by lia.
+    unfold cA. now apply nth_error_nth'.
+  - rewrite nth_error_seg by lia. replace (R r + (i - R r)) with i by lia. exact Ha.
+Qed.
+
+Lemma lookup_p_none : forall r y, memb y (row_cols p r) = false -> lookup p r y = None.
+Proof.
+  intros r y H. unfold lookup, row_entries. apply find_combine_none. intros Hin.
+  apply memb_In in Hin. congruence.
+Qed.
+
+Theorem symmetrize_represents :
+  exists s, symmetrize V vadd vhalf p N = Ok s /\ sym_spec vadd vhalf N p s.
+Proof.
+  destruct symmetrize_ok as (rc & s & Erc & Lrc & Crc & Es & Erow & Lcol & Lval & Slot & Dist).
+  exists s. split; [exact Es|].
+  set (srow := prefix_sums 0 rc) in *.
+  assert (HS : forall x, rowp s x = nth x srow 0) by (intros x; unfold rowp; now rewrite Erow).
+  assert (Hlen : length srow = N + 1) by (unfold srow; rewrite prefix_sums_length; lia).
+  assert (H0 : nth 0 srow 0 = 0) by (unfold srow; rewrite prefix_sums_nth by lia; reflexivity).
+  assert (Hstep : forall x, x < N -> nth (x + 1) srow 0 = nth x srow 0 + nth x rc 0).
+  { intros x Hx. unfold srow. apply prefix_sums_step. lia. }
+  pose proof (S_mono srow Hlen rc Lrc H0 Hstep) as Hmono.
+  assert (Hreg : forall x, x < N -> rowp s x + nth x rc 0 <= length (col_P s)).
+  { intros x Hx. rewrite Lcol, !HS, <- Hstep by assumption. apply Hmono; lia. }
+  (* row x of s as lists *)
+  assert (Hcols : forall x j, x < N -> j < nth x rc 0 ->
+            nth_error (row_cols s x) j = nth_error (col_P s) (rowp s x + j)).
+  { intros x j Hx Hj. unfold row_cols, seg. rewrite nth_error_seg; [reflexivity|].
+    rewrite !HS, Hstep by assumption. lia. }
+  assert (Hvals : forall x j, x < N -> j < nth x rc 0 ->
+            nth_error (row_vals s x) j = nth_error (val_P s) (rowp s x + j)).
+  { intros x j Hx Hj. unfold row_vals, seg. rewrite nth_error_seg; [reflexivity|].
+    rewrite !HS, Hstep by assumption. lia. }
+  assert (Hclen : forall x, x < N -> length (row_cols s x) = nth x rc 0).
+  { intros x Hx. unfold row_cols, seg. rewrite firstn_length, skipn_length.
+    pose proof (Hreg x Hx). rewrite !HS, Hstep by assumption. rewrite HS in H. lia. }
+  assert (Hnd : forall x, x < N -> NoDup (row_cols s x)).
+  { intros x Hx. apply NoDup_nth_error. intros j1 j2 Hj1 E. rewrite (Hclen x Hx) in Hj1.
+    destruct (Slot x j1 Hx Hj1) as (y & v & S1 & _). rewrite (Hcols x j1 Hx Hj1), S1 in E.
+    assert (Hj2 : j2 < nth x rc 0).
+    { rewrite <- (Hclen x Hx). apply nth_error_Some. rewrite <- E. discriminate. }
+    rewrite (Hcols x j2 Hx Hj2) in E. symmetry in E. now apply (Dist x j1 j2 y). }
+  (* what a provenance record says about the input *)
+  assert (HsrcT : forall x y v, x < N -> Src (ents) x y v -> y < N /\ targetb x y = true).
+  { intros x y v Hx (n & i & Hin & _ & _ & Hxy).
+    apply (ents_In srow Hlen rc Lrc H0) in Hin. destruct Hin as [Hn Hi].
+    pose proof (row_idx_lt n i Hn Hi) as Hil. pose proof (cA_lt i Hil) as Hc.
+    assert (Hmem : memb (cA i) (row_cols p n) = true).
+    { apply memb_In. rewrite (row_cols_eq n Hn). apply in_map_iff. now exists i. }
+    unfold targetb. destruct Hxy as [[-> ->]|[-> ->]].
+    - split; [assumption|]. now rewrite Hmem.
+    - split; [assumption|]. rewrite Hmem. apply orb_true_r. }
+  assert (Hincl : forall x, x < N -> incl (row_cols s x) (T x)).
+  { intros x Hx y Hy. apply In_nth_error in Hy. destruct Hy as (j & Ej).
+    assert (Hj : j < nth x rc 0) by (rewrite <- (Hclen x Hx); apply nth_error_Some; rewrite Ej; discriminate).
+    destruct (Slot x j Hx Hj) as (y' & v & S1 & _ & S3). rewrite (Hcols x j Hx Hj), S1 in Ej. inversion Ej; subst y'.
+    destruct (HsrcT x y v Hx S3) as [Hy Ht]. unfold T. apply filter_In. split; [apply in_seq; lia | exact Ht]. }
+  assert (Hincl' : forall x, x < N -> incl (T x) (row_cols s x)).
+  { intros x Hx. apply NoDup_length_incl; [now apply Hnd | | now apply Hincl].
+    rewrite (Hclen x Hx), (Crc x Hx), (SC_target x Hx). lia. }
+  split.
+  - (* well-formedness of the result *)
+    unfold wf_csr. rewrite Erow. fold srow.
+    split; [exact Hlen|]. split; [rewrite HS; exact H0|].
+    split; [intros n Hn; rewrite !HS, Hstep by assumption; lia|].
+    split; [now rewrite Lcol|]. split; [congruence|]. split.
+    + intros c Hc. apply In_nth_error in Hc. destruct Hc as (k & Ek).
+      assert (Hk : k < nth N srow 0) by (rewrite <- HS, <- Lcol; apply nth_error_Some; rewrite Ek; discriminate).
+      destruct (find_region srow Hlen rc Lrc H0 k Hk) as (x & Hx & Hr). rewrite (Hstep x Hx) in Hr.
+      destruct (Slot x (k - nth x srow 0) Hx ltac:(lia)) as (y & v & S1 & _ & S3).
+      rewrite HS in S1. replace (nth x srow 0 + (k - nth x srow 0)) with k in S1 by lia.
+      rewrite S1 in Ek. inversion Ek; subst y. now destruct (HsrcT x c v Hx S3).
+    + exact Hnd.
+  - (* entries *)
+    intros r y Hr Hy. destruct (targetb r y) eqn:Ht.
+    + assert (HyT : In y (T r)) by (unfold T; apply filter_In; split; [apply in_seq; lia | exact Ht]).
+      apply (Hincl' r Hr) in HyT. apply In_nth_error in HyT. destruct HyT as (j & Ej).
+      assert (Hj : j < nth r rc 0) by (rewrite <- (Hclen r Hr); apply nth_error_Some; rewrite Ej; discriminate).
+      destruct (Slot r j Hr Hj) as (y' & v & S1 & S2 & S3).
+      pose proof Ej as Ej'. rewrite (Hcols r j Hr Hj), S1 in Ej'. inversion Ej'; subst y'.
+      assert (Ls : lookup s r y = Some (vhalf v)).
+      { unfold lookup, row_entries. apply (find_combine _ _ y j); [now apply Hnd | exact Ej|].
+        now rewrite (Hvals r j Hr Hj). }
+      rewrite Ls. symmetry.
+      destruct S3 as (n & i & Hin & A & (vi & Evi & HV) & Hxy).
+      pose proof Hin as Hin0.
+      apply (ents_In srow Hlen rc Lrc H0) in Hin. destruct Hin as [Hn Hi].
+      pose proof (row_idx_lt n i Hn Hi) as Hil. pose proof (cA_lt i Hil) as Hc.
+      pose proof (lookup_p_in n i vi Hn Hi Evi) as L1.
+      unfold sym_entry. unfold active in A.
+      destruct Hxy as [[-> ->]|[-> ->]].
+      * (* the entry's own row *)
+        rewrite L1. destruct (presentb n (cA i)) eqn:Pr.
+        -- destruct HV as (m & vm & Hm & Em & Evm & ->).
+           pose proof (lookup_p_in (cA i) m vm Hc Hm Evm) as L2. rewrite Em in L2. rewrite L2.
+           cbn [negb orb] in A. now rewrite A.
+        -- subst v. rewrite (presentb_memb n (cA i) Hc) in Pr. now rewrite (lookup_p_none (cA i) n Pr).
+      * (* the mirrored entry *)
+        rewrite L1. destruct (presentb n (cA i)) eqn:Pr.
+        -- destruct HV as (m & vm & Hm & Em & Evm & ->).
+           pose proof (lookup_p_in (cA i) m vm Hc Hm Evm) as L2. rewrite Em in L2. rewrite L2.
+           cbn [negb orb] in A. apply Nat.leb_le in A.
+           destruct (Nat.leb_spec (cA i) n) as [Hle|Hgt]; [|reflexivity].
+           assert (Ecn : cA i = n) by lia.
+           assert (m = i).
+           { apply (ents_inj srow Hlen rc Lrc H0 n); [| exact Hin0 | congruence].
+             apply (ents_In srow Hlen rc Lrc H0). split; [assumption|]. now rewrite <- Ecn. }
+           subst m. rewrite Evi in Evm. inversion Evm; subst vm. reflexivity.
+        -- subst v. rewrite (presentb_memb n (cA i) Hc) in Pr. now rewrite (lookup_p_none (cA i) n Pr).
+    + (* neither P(r,y) nor P(y,r) is stored *)
+      assert (Hnot : ~ In y (row_cols s r)).
+      { intros Hin. apply (Hincl r Hr) in Hin. unfold T in Hin. apply filter_In in Hin. destruct Hin as [_ E]. congruence. }
+      unfold lookup at 1. unfold row_entries. rewrite (find_combine_none _ _ y Hnot).
+      unfold targetb in Ht. apply orb_false_iff in Ht. destruct Ht as [T1 T2].
+      unfold sym_entry. now rewrite (lookup_p_none r y T1), (lookup_p_none y r T2).
 Qed.
 
 End Sym2.
